@@ -77,6 +77,49 @@ def strategy(tier):
     return _generated(tier)
 
 
+def _cli_strategy(tier):
+    return _generated(tier).map(lambda c: dict(c, kind="cli", hashing=False, records={}))
+
+
+# the same generated DAGs on a real directory tree through `gwf status` / `gwf run`; here the mtime ladder
+# starts at the Unix epoch (tick 1 = mtime 0.0), a legal if unusual timestamp
+EXTRA_STRATEGIES = [{"name": "cli", "strategy": _cli_strategy, "examples": {"quick": 400, "thorough": 8000}, "wall_s": 200}]
+
+
+def run_cli(case):
+    from vlib import project
+
+    desc, vec = case["desc"], case["backend"]
+    R = model.Resolved(desc)
+    want, subs = R.plan(R.by_name.keys(), {})
+    viols = []
+    with project.Project(desc, backend="slurm") as proj:
+        proj.base_mtime = -10  # tick 1 -> 1970-01-01T00:00:00
+        proj.set_files(desc["files"])
+        r = proj.gwf(["status"])
+        if r.code != 0 or r.crashed:
+            return CaseResult([Violation({"kind": "status-failed", "exc": type(r.exc).__name__ if r.exc else None},
+                                         f"files {desc['files']}: " + r.brief())], False, ["cli"])
+        got = r.status_rows()
+        for n in sorted(want):
+            if got.get(n) != want[n]:
+                T = R.by_name[n]
+                viols.append(Violation({"kind": "wrong-status-cli", "want": want[n], "got": got.get(n)},
+                                       f"target {n}: `gwf status` says {got.get(n)}, make semantics say {want[n]} "
+                                       f"(inputs {sorted(T.inset)}, outputs {sorted(T.outset)}, ticks {R.files}; tick 1 is mtime 0)"))
+        r2 = proj.gwf(["run"])
+        sub = sorted(j.name for j in proj.sim.submissions())
+        if r2.code != 0 or sub != sorted(n for n, _ in subs):
+            viols.append(Violation({"kind": "run-submits-other-set-cli"},
+                                   f"run submitted {sub}, expected {sorted(n for n, _ in subs)}: {r2.brief()}"))
+    nt = any(s_ in ("completed", "shouldrun") and R.by_name[n].inset and R.by_name[n].outset
+             and all(R.exists(p) for p in R.by_name[n].inset | R.by_name[n].outset) for n, s_ in want.items())
+    labels = {"cli"}
+    if any(t == 1 for t in desc["files"].values()):
+        labels.add("epoch-mtime")
+    return CaseResult(viols, nt, sorted(labels))
+
+
 def _canonical(desc):
     """Same path sets, plainest grouping and spelling (metamorphic partner)."""
     out = {"files": desc["files"], "targets": []}
@@ -100,6 +143,8 @@ def _gwf_status(desc, vec, hashing, rec):
 
 
 def run_case(case):
+    if case["kind"] == "cli":
+        return run_cli(case)
     if case["kind"] == "single":
         desc, vec, hashing, rec = single_desc(case)
     else:
